@@ -19,6 +19,10 @@ Inductive case :=
 (* proxy.NewEntityFormatter(backend).Format on a decoded document: observed with the
    target only, with target + filter, and with the whole configuration *)
 | CFmt (c : cfg) (d : obj) (o_t o_f o : obs) (stable : bool)
+(* the same with an extra_config on the backend: ns = the value under the proxy namespace.
+   Judged like CFmt when the model says the entity formatter stays in place; when the flatmap
+   formatter takes over (outside C06) nothing is judged *)
+| CFmtX (ns : option json) (c : cfg) (d : obj) (o_t o_f o : obs) (stable : bool)
 (* backend body -> decoder chosen by config (is_collection) -> formatter, through the http
    proxy (or through the whole pipeline and the router: same observation, the Data / the JSON
    body); o = None: no response (decoder error).  o_t, o_f: the formatter's partial runs on
@@ -61,6 +65,12 @@ Definition model_out (x : e2e_item) : list obj :=
 Definition check_case (cs : case) : bool * bool :=
   match cs with
   | CFmt c d o_t o_f o stable =>
+      (obs_eqb (format (cfg_t c) d) o_t && obs_eqb (format (cfg_f c) d) o_f &&
+       (negb (comparable c) || obs_eqb (format c d) o),
+       spec_b c d o_t o_f o && (stable || negb (comparable c)))
+  | CFmtX ns c d o_t o_f o stable =>
+      if uses_flatmap ns then (true, true)
+      else
       (obs_eqb (format (cfg_t c) d) o_t && obs_eqb (format (cfg_f c) d) o_f &&
        (negb (comparable c) || obs_eqb (format c d) o),
        spec_b c d o_t o_f o && (stable || negb (comparable c)))
